@@ -19,6 +19,12 @@ MCAlphabetQ == {A("get", "a"), A("set", "a"), A("set", "b"), A("del", "a"), A("c
 MCInitQ == {<<>>, <<L!Entry("a", 101)>>, <<L!Entry("a", 101), L!Entry("b", 102)>>}
 MCMaxSizesQ == {1, 2}
 MCInitPM == {<<>>, <<L!Entry("a", 101)>>}
+NoDev == {}
+DevClearWithoutLock == {"ClearWithoutLock"}
+\* the smallest programs that expose an unguarded clear(): a lookup of a cached key racing clear()
+MCAlphabetClear == {A("get", "a"), A("has", "a"), A("clear", L!NONE)}
+MCAlphabetClearPM == {A("goc", "a"), A("clear", L!NONE)}
+MCInitA == {<<L!Entry("a", 101)>>}
 T2 == {1, 2}
 T3 == {1, 2, 3}
 
